@@ -150,7 +150,7 @@ fn garbage(fmt: &str, rng: &mut StdRng) -> String {
 }
 
 // ---------------------------------------------------------------- random well-formed enum values
-const NAME_PARTS: [&str; 28] = ["a", "b", "word", "x1", "A_b", "go", "to", "SELF", "robin", "é", "Ω", "词", "项", "名", "甲", "乙", "²", "２", "٣", "½", "①",
+const NAME_PARTS: [&str; 30] = ["p--q", "m--", "a", "b", "word", "x1", "A_b", "go", "to", "SELF", "robin", "é", "Ω", "词", "项", "名", "甲", "乙", "²", "２", "٣", "½", "①",
     "Z", "q7", "_", "k9", "long", "naïve", "ß"];
 
 thread_local! { static ASCII_ONLY: std::cell::Cell<bool> = std::cell::Cell::new(false); static NODES: std::cell::Cell<usize> = std::cell::Cell::new(0);
